@@ -8,7 +8,7 @@ import sympy as sp
 
 from ..astq import Canon, U, kwarg, statements
 from ..index import AnalysisError, walk_no_nested
-from ..normalform import F, NFUnsupported, Normalizer, SymEval, equal, fold_constants, sym
+from ..normalform import F, NFUnsupported, Normalizer, SymEval, equal, fold_constants, method_inline_hook, sym
 from ..selftest import V
 
 PROP = "C08"
@@ -78,7 +78,13 @@ def r1_gaussian(ctx):
                         if t in atoms:
                             return atoms[t]
                         return super().tosym(e)
-                got = N({"loc": loc, "scale": scale})(inl.resolve(val))
+                env_ = {"loc": loc, "scale": scale}
+                hook_ = method_inline_hook(ix, cls)
+                # parameters re-bound before the return (`scale = cls._safe_scale(scale)`) are what the formula sees
+                for st_ in sorted(statements(f.node), key=lambda s_: s_.lineno):
+                    if isinstance(st_, ast.Assign) and len(st_.targets) == 1 and isinstance(st_.targets[0], ast.Name) and st_.targets[0].id in env_ and st_.lineno < rets[0].lineno:
+                        env_[st_.targets[0].id] = N(dict(env_), call_hook=hook_)(st_.value)
+                got = N(env_, call_hook=hook_)(inl.resolve(val))
             except NFUnsupported as e:
                 ctx.unknown("C08.R1", f, part, f"expression outside the supported subset: {e}")
                 continue
